@@ -238,9 +238,11 @@ class CuboidalDescription(ShapeDescriptionBase):
     
     def __init__(self):
         super().__init__()
-        self.eqRadiusFactorMin = self.eqRadiusFactor(1)
+        #Evaluate the cuboidal expressions directly at an aspect ratio of 1
+        #(the public functions return the placeholder minimum for ar <= 1, which made the factors discontinuous at 1)
+        self.eqRadiusFactorMin = self._eqRadius(np.ones(1))[0]
         self.kineticFactorMin = self.kineticFactor(1.0001)
-        self.thermoFactorMin = self.thermoFactor(1)
+        self.thermoFactorMin = self._thermoFactor(np.ones(1))[0]
 
     def _eqRadius(self, ar):
         '''
